@@ -192,50 +192,7 @@ func runC14(c *core.Ctx) {
 		}
 	}
 
-	// ---- R14.3
-	now := c.P.Fn("pwr/overlay", "NewOverlayWriter")
-	if now == nil {
-		c.Missing("R14.3", "pwr/overlay.NewOverlayWriter", "not found")
-	} else {
-		ovOff := now.Params[len(now.Params)-1]
-		atZero := func(in ssa.Instruction) bool {
-			return hasGuard(in, func(g core.Guard) bool {
-				bo, ok := g.Cond.(*ssa.BinOp)
-				if !ok || bo.X != ssa.Value(ovOff) {
-					return false
-				}
-				z, isC := core.ConstInt(bo.Y)
-				return isC && z == 0 && ((bo.Op == token.EQL && g.Val) || (bo.Op == token.NEQ && !g.Val))
-			})
-		}
-		n := 0
-		// only the magic is demanded: a repeated OverlayHeader message is decoded by the applier as a SKIP of 0 bytes
-		// (harmless, see §5), a repeated magic would be read as a message length
-		for _, in := range allInstrs(now, callTo("(*wire.WriteContext).WriteMagic")) {
-			n++
-			c.Check(atZero(in), "R14.3", core.FnName(now), "magic written only at overlay offset 0", core.InstrPos(in),
-				"control-dependent on overlayOffset == 0", "the magic is written when resuming at a non-zero overlay offset: the applier reads it as a message length in the middle of the stream")
-		}
-		c.Floor("R14.3", "magic writes", n, 1)
-		seeded := false
-		for _, in := range allInstrs(now, callTo("(*github.com/itchio/headway/counter.Writer).SetCount")) {
-			if in.(*ssa.Call).Call.Args[1] == ssa.Value(ovOff) {
-				seeded = true
-			}
-		}
-		c.Check(seeded, "R14.3", core.FnName(now), "byte counter seeded with the overlay offset", now.Pos(),
-			"cw.SetCount(overlayOffset)", "the overlay byte counter is not seeded with the resume offset: OverlayOffset() reported after a resume is too small")
-		// readOffset field initialised from the parameter
-		okRead := false
-		core.Instrs(now, func(in ssa.Instruction) {
-			if st, ok := in.(*ssa.Store); ok {
-				if _, n, ok := core.FieldOf(st.Addr); ok && n == "readOffset" && st.Val == ssa.Value(now.Params[1]) {
-					okRead = true
-				}
-			}
-		})
-		c.Check(okRead, "R14.3", core.FnName(now), "readOffset initialised from the resume offset", now.Pos(), "readOffset: readOffset", "the writer's readOffset does not start at the resume offset")
-	}
+	ruleOverlayHeaderOnlyAtStart(c)
 
 	// ---- R14.4
 	patch := c.P.Fn("pwr/overlay", "OverlayPatchContext.Patch")
@@ -488,4 +445,54 @@ func ruleWindowInspectedBelowCount(c *core.Ctx) {
 			c.Floor("R14.5", "inspections of the old-file window", n, 1)
 		}
 	}
+}
+
+// ruleOverlayHeaderOnlyAtStart is R14.3 (shared with C03: the overlay writer is made anew for every session of
+// an interrupted apply).
+func ruleOverlayHeaderOnlyAtStart(c *core.Ctx) {
+	c.Rule("R14.3", "header only at offset zero; counter seeded")
+	now := c.P.Fn("pwr/overlay", "NewOverlayWriter")
+	if now == nil {
+		c.Missing("R14.3", "pwr/overlay.NewOverlayWriter", "not found")
+	} else {
+		ovOff := now.Params[len(now.Params)-1]
+		atZero := func(in ssa.Instruction) bool {
+			return hasGuard(in, func(g core.Guard) bool {
+				bo, ok := g.Cond.(*ssa.BinOp)
+				if !ok || bo.X != ssa.Value(ovOff) {
+					return false
+				}
+				z, isC := core.ConstInt(bo.Y)
+				return isC && z == 0 && ((bo.Op == token.EQL && g.Val) || (bo.Op == token.NEQ && !g.Val))
+			})
+		}
+		n := 0
+		// only the magic is demanded: a repeated OverlayHeader message is decoded by the applier as a SKIP of 0 bytes
+		// (harmless, see §5), a repeated magic would be read as a message length
+		for _, in := range allInstrs(now, callTo("(*wire.WriteContext).WriteMagic")) {
+			n++
+			c.Check(atZero(in), "R14.3", core.FnName(now), "magic written only at overlay offset 0", core.InstrPos(in),
+				"control-dependent on overlayOffset == 0", "the magic is written when resuming at a non-zero overlay offset: the applier reads it as a message length in the middle of the stream")
+		}
+		c.Floor("R14.3", "magic writes", n, 1)
+		seeded := false
+		for _, in := range allInstrs(now, callTo("(*github.com/itchio/headway/counter.Writer).SetCount")) {
+			if in.(*ssa.Call).Call.Args[1] == ssa.Value(ovOff) {
+				seeded = true
+			}
+		}
+		c.Check(seeded, "R14.3", core.FnName(now), "byte counter seeded with the overlay offset", now.Pos(),
+			"cw.SetCount(overlayOffset)", "the overlay byte counter is not seeded with the resume offset: OverlayOffset() reported after a resume is too small")
+		// readOffset field initialised from the parameter
+		okRead := false
+		core.Instrs(now, func(in ssa.Instruction) {
+			if st, ok := in.(*ssa.Store); ok {
+				if _, n, ok := core.FieldOf(st.Addr); ok && n == "readOffset" && st.Val == ssa.Value(now.Params[1]) {
+					okRead = true
+				}
+			}
+		})
+		c.Check(okRead, "R14.3", core.FnName(now), "readOffset initialised from the resume offset", now.Pos(), "readOffset: readOffset", "the writer's readOffset does not start at the resume offset")
+	}
+
 }
